@@ -131,6 +131,9 @@ func govcCorpus() []govcSet {
 			`submodule s { belongs-to m { prefix m; } augment "/m:r/m:input" { uses nope; } augment "/m:c/m:ch" { uses nope2; } }`}, true},
 		{"valid-empty-augment", []string{base,
 			`module a { namespace "urn:a"; prefix a; import m { prefix m; } grouping only-types { typedef t { type string; } } augment "/m:c" { description "nothing"; uses only-types; } }`}, false},
+		{"augment-into-the-input-of-an-action-that-declares-none", []string{
+			`module m { namespace "urn:m"; prefix m; container c { action a; list l { key k; leaf k { type string; } action b { description "bare"; } } } grouping g { action ga; } container u { uses g; } }`,
+			`module x { namespace "urn:x"; prefix x; import m { prefix m; } augment "/m:c/m:a/m:input" { leaf p { type string; } } augment "/m:c/m:l/m:b/m:output" { choice r { leaf ok { type empty; } } } augment "/m:u/m:ga/m:input" { leaf q { type string; } } }`}, false},
 		{"deviation", []string{base,
 			`module dv { namespace "urn:dv"; prefix dv; import m { prefix m; } deviation "/m:c/m:gc/m:gll" { deviate add { min-elements 5; } } deviation "/m:d/m:gl" { deviate not-supported; } }`}, false},
 	}
